@@ -82,6 +82,17 @@ def run(c):
             sized.append(("POST", "/", "HTTP/1.1", [("N" * L, "v"), ("After", "1")], b"", {"size:header-name-2^%d" % k}, "empty"))
             if k <= 12:
                 sized.append(("GET", "/", "HTTP/1.1", [("H%d" % j, "v%d" % j) for j in range(L)], b"", {"size:header-count-2^%d" % k}, "empty"))
+    # whole messages whose serialised length is exactly a buffer-like size (the documented 10000-byte read, powers of two),
+    # with bodies that end in bytes a buffer might be padded with; every total in a window around each size is produced
+    for total in (4096, 8192, 10000, 12000, 16384, 65536):
+        for blen in range(total - 30 - 9, total - 30 + 10):
+            for ending in (b"\x00\x00\x00\x00", b"\r\n", b" "):
+                sized.append(("POST", "/", "HTTP/1.1", [("Host", "h")], b"b" * (blen - len(ending)) + ending, {"size:total-%d" % total}, "binary"))
+    # absolute-form targets that name the request's own Host (and ones that do not): the target is data, it comes back as it was
+    for host in ("example.com", "example.com:8080", "EXAMPLE.com", "[::1]:7878", "h"):
+        for tgt in ("http://%s/index.html?a=b" % host, "http://%s" % host, "http://%s/" % host, "https://%s/x" % host, "HTTP://%s/p#f" % host.upper()):
+            sized.append(("GET", tgt, "HTTP/1.1", [("Host", host), ("Accept", "*/*")], b"", {"target:absolute-form-own-host"}, "empty"))
+            sized.append(("GET", tgt, "HTTP/1.1", [("Accept", "*/*"), ("host", host.lower())], b"", {"target:absolute-form-own-host"}, "empty"))
     for i in range(len(sized) + n):
         m, t, v, hs, body, feats, bk = sized[i] if i < len(sized) else gen_request(rng, i)
         fields = [m, t, v, str(len(hs))]
@@ -93,6 +104,7 @@ def run(c):
         meta[cid] = (m, t, v, hs, body, feats, bk)
     for cat in ("0 headers", "50 headers", "': ' inside a value", "binary body", "near miss: unknown method", "near miss: unknown version", "near miss: missing part", "near miss: non-UTF-8 byte"):
         c.need(cat)
+    core.cold_race_check(c, "C14", [cs for cs in cases if len(cs.line()) < 4000][len(sized):len(sized) + 12], trials=30 if c.quick else 600)
     for lane in ("rel", "chk"):
         obs = core.run_cases(cases, lane=lane, poison="http")
         for cs in cases:
